@@ -1069,7 +1069,7 @@ static void exec_gensalt(Run &r, int t, int i, const J &op) {
   MemLayer::get().begin_op(t, faults, false);
   EntropyDev::get().begin_op(t);
 #ifdef SIM_RNG
-  g_rngdev.script[t].clear();
+  g_rngdev.script[t].clear(); g_rngdev.pinned_served[t].clear();
   g_rngdev.fired_in_op[t] = 0; g_rngdev.grb_calls[t] = g_rngdev.grb_ok[t] = 0;
   bool scripted = false;
   for (auto &kv : op.at("script").o) { for (auto &o : kv.second.a) { g_rngdev.script[t][kv.first].push_back(o.s); scripted = true; } }
@@ -1144,16 +1144,27 @@ static void exec_gensalt(Run &r, int t, int i, const J &op) {
         if (first) { exp = e2; first = false; }
         if (failed ? !e2.ok : (e2.ok && e2.str == res)) { exp = e2; found = true; break; }
       }
-      if (!found && !failed) {
+      // (a search costs hundreds of reference queries: never after the run has its violation - a failing search is one -
+      // and what matched once in this run is tried first the next time)
+      static thread_local uint64_t search_run = 0; static thread_local std::vector<std::pair<int, size_t>> hits;
+      if (search_run != g_run_seed) { search_run = g_run_seed; hits.clear(); }
+      if (!found && !failed && !run_violated()) {
         stat("incidental_salt_from_part_of_the_draw_searches");
+        auto try_part = [&](const std::string &all, int side, size_t L) {
+          if (L < need || L >= all.size()) return false;
+          std::string part = side == 0 ? all.substr(0, L) : all.substr(all.size() - L);
+          RefOut e2 = RefClient::get().gensalt(prefix, count, Bytes(part), (int)L, ref_osz);
+          if (e2.bad) crash_exit("machinery", "refsrv");
+          if (e2.ok && e2.str == res) { exp = e2; found = true; stat("incidental_salt_from_part_of_the_draw"); return true; }
+          return false;
+        };
+        for (auto &all : cands) { for (auto &h : hits) if (try_part(all, h.first, h.second)) break; if (found) break; }
         for (auto &all : cands) {
+          // lengths worth asking about: what hashes.conf asks for and a little more, the usual buffer sizes, and almost all
+          std::vector<size_t> Ls; for (size_t q = 0; q <= 8; q++) { Ls.push_back(need + q); if (all.size() > q + 1) Ls.push_back(all.size() - 1 - q); }
+          for (size_t q : {16u, 20u, 24u, 32u, 48u, 64u, 128u}) Ls.push_back(q);
           for (int side = 0; side < 2 && !found; side++)
-            for (size_t L = all.size() - 1; L >= need && L < all.size() && !found; L--) {
-              std::string part = side == 0 ? all.substr(0, L) : all.substr(all.size() - L);
-              RefOut e2 = RefClient::get().gensalt(prefix, count, Bytes(part), (int)L, ref_osz);
-              if (e2.bad) crash_exit("machinery", "refsrv");
-              if (e2.ok && e2.str == res) { exp = e2; found = true; stat("incidental_salt_from_part_of_the_draw"); }
-            }
+            for (size_t L : Ls) { if (found) break; if (try_part(all, side, L)) hits.emplace_back(side, L); }
           if (found) break;
         }
       }
@@ -1526,7 +1537,7 @@ static RunOut run_plan(const J &plan, uint64_t fill_override, bool use_override)
   g_viol = Violation(); g_viol_extra = 0; g_trace_hash = 0xcbf29ce484222325ULL; g_events = 0; g_event_text.clear(); g_stats.clear();
   g_run_seed = (uint64_t)plan.i("seed");
   g_phase = "run";
-  alarm(600);   // a run is milliseconds to a few seconds (rarely a minute: GiB regions, ten million rounds); anything near this is a generator mistake, never a verdict
+  alarm(VARIANT[0] == 'r' ? 60 : 600);   // (fallback-entropy runs are cheap: a minute there means a loop that never ends)  a run is milliseconds to a few seconds (rarely a minute: GiB regions, ten million rounds); anything near this is a generator mistake, never a verdict
   const std::string &p = g_prop;
   r.o_ref = (p == "C07" || p == "C08" || p == "C17" || p == "C14" || p == "C09" || p == "C12");
   r.o_c05 = p == "C05"; r.o_c09 = p == "C09"; r.o_c12 = p == "C12"; r.o_c14 = p == "C14"; r.o_c15 = p == "C15"; r.o_c17 = (p == "C17" || p == "C08");
